@@ -4,6 +4,7 @@
 #include <cstdlib>
 #include <cstring>
 #include <exception>
+#include <new>
 #include <pthread.h>
 #include <typeinfo>
 #include <ucontext.h>
@@ -83,6 +84,11 @@ struct Sched
 };
 
 Sched g;
+int g_fault_fiber = -2;
+long g_fault_k = 0;
+long g_fault_count = 0;
+bool g_fault_fired = false;
+std::uint64_t g_fault_total = 0;
 std::vector<sim::sched::Event> g_history;
 std::uint64_t g_seq = 0;
 unsigned g_tsan_reports = 0;
@@ -302,6 +308,15 @@ void clear_history()
 int current_fiber() { return g.active ? g.cur : -1; }
 unsigned tsan_report_count() { return g_tsan_reports; }
 void yield_here(unsigned kind, void const *obj) { sched_point(K_OP + kind, obj); }
+void arm_alloc_fault(int fiber, long k)
+{
+  g_fault_fiber = fiber;
+  g_fault_k = k;
+  g_fault_count = 0;
+  g_fault_fired = false;
+}
+void disarm_alloc_fault() { g_fault_fiber = -2; }
+bool alloc_fault_fired() { return g_fault_fired; }
 
 Result run(std::vector<std::function<void()>> const &bodies, Config const &cfg)
 {
@@ -390,11 +405,42 @@ Result run(std::vector<std::function<void()>> const &bodies, Config const &cfg)
   for (Fiber &f : g.fibers)
     g.res.fiber_errors.push_back(f.error);
   g.res.tsan_reports = g_tsan_reports - before_reports;
+  g.res.locks_held_at_end = static_cast<unsigned>(g.owners.size());
+  g.res.alloc_faults_fired = g_fault_total;
+  g_fault_total = 0;
+  g_fault_fiber = -2;
   Result r = g.res;
   g.fibers.clear();
   return r;
 }
 }
+
+// ------------------------------------------------------------------ allocation seam
+// Replaced global operator new (the executable's definition wins over the race detector's
+// interceptor; malloc underneath is still seen by it). Only the armed fiber's k-th allocation fails.
+namespace
+{
+void *conc_new(std::size_t sz)
+{
+  if (g_fault_fiber != -2 && g.active && g.cur == g_fault_fiber && ++g_fault_count == g_fault_k)
+  {
+    g_fault_fired = true;
+    ++g_fault_total;
+    g_fault_fiber = -2;
+    throw std::bad_alloc();
+  }
+  void *p = std::malloc(sz == 0 ? 1 : sz);
+  if (p == nullptr)
+    throw std::bad_alloc();
+  return p;
+}
+}
+void *operator new(std::size_t sz) { return conc_new(sz); }
+void *operator new[](std::size_t sz) { return conc_new(sz); }
+void operator delete(void *p) noexcept { std::free(p); }
+void operator delete[](void *p) noexcept { std::free(p); }
+void operator delete(void *p, std::size_t) noexcept { std::free(p); }
+void operator delete[](void *p, std::size_t) noexcept { std::free(p); }
 
 // ------------------------------------------------------------------ link-time wrappers
 extern "C"
